@@ -273,15 +273,21 @@ def structured_variants(dg, is_request):
         return []
     a, b = loc["opt"]
     pos = loc["optpos"]
-    if a != pos + 1:            # extended delta/length header: keep the generator simple
-        return []
     d = dg[pos] >> 4
+    if d >= 13:                 # the OSCORE option's delta is at most 9
+        return []
     v = bytes(dg[a:b])
     out = []
 
     def put(tag, nv, must):
-        if len(nv) < 13:
-            out.append((tag, dg[:pos] + bytes([(d << 4) | len(nv)]) + nv + dg[b:], must))
+        l = len(nv)
+        if l < 13:
+            hdr = bytes([(d << 4) | l])
+        elif l < 269:
+            hdr = bytes([(d << 4) | 13, l - 13])
+        else:
+            return
+        out.append((tag, dg[:pos] + hdr + nv + dg[b:], must))
 
     if not v:
         put("zeroflag", b"\x00", True)
@@ -297,6 +303,23 @@ def structured_variants(dg, is_request):
         put("pivzero", bytes([v[0] + 1]) + b"\x00" + v[1:], is_request)
     if k and not h:
         put("emptyctx", bytes([v[0] | 0x10]) + v[1:1 + n] + b"\x00" + v[1 + n:], False)
+        # a kid context where the security context has no ID Context
+        put("addctx", bytes([v[0] | 0x10]) + v[1:1 + n] + b"\x01\xaa" + v[1 + n:], True)
+    if h and len(v) > 1 + n:
+        # the kid context of a request selects the security context together with the kid
+        # (RFC 8613 8.2 step 2): every proper prefix, none at all, a longer one, a changed one
+        sl = v[1 + n]
+        ctx = v[2 + n:2 + n + sl]
+        rest = v[2 + n + sl:]
+        head = v[:1 + n]
+        if len(ctx) == sl:
+            for L in range(sl):
+                put("ctxprefix%d" % L, head + bytes([L]) + ctx[:L] + rest, True)
+            put("ctxremoved", bytes([v[0] & ~0x10 & 0xff]) + v[1:1 + n] + rest, True)
+            put("ctxextended", head + bytes([sl + 1]) + ctx + b"\x00" + rest, True)
+            if sl:
+                put("ctxbyte", head + bytes([sl]) + ctx[:-1] + bytes([ctx[-1] ^ 0x80]) + rest, True)
+                put("ctxsuffix", head + bytes([sl - 1]) + ctx[1:] + rest, True)
     if k and len(v) > 1 + n + (1 + v[1 + n] if h else 0):
         put("kidshort", v[:-1], True)
     if n >= 1:
